@@ -142,6 +142,24 @@ class C04(Campaign):
         sc = super().scenario(rnd, tier)
         sc["c04"] = {"mode": "all" if tier == "thorough" else "sample", "pick": rnd.randrange(1 << 30)}
         prog = sc["programs"][0]
+        if rnd.random() < 0.25:
+            # a comparison of two guards as the only guard entry of a transition: no short-circuit, both
+            # operands are evaluated on every attempt (and either of them may fail)
+            free = [t for t in prog["trans"] if not t.get("cond") and not t.get("unless")]
+            if free:
+                t = rnd.choice(free)
+                roles = ["machine", "model"] + list(sc["ops"][0].get("listeners", []))
+                names = []
+                for x in "ab":
+                    nm = f"gc_{x}"
+                    role = rnd.choice(roles)
+                    prog["cbs"][f"{role}.{nm}"] = {"group": "cond", "sig": gen.basic_sig(rnd)}
+                    if any(m_.get("async") for m_ in prog["cbs"].values()) and rnd.random() < 0.5:
+                        prog["cbs"][f"{role}.{nm}"]["async"] = True
+                    sc["gv"][f"{prog['name']}/{role}.{nm}"] = [rnd.getrandbits(len(prog["states"]))
+                                                               for _ in range(len(sc["ops"]))]
+                    names.append(nm)
+                t["cond"] = [f"{names[0]} {rnd.choice(['==', '!=', '>', '<='])} {names[1]}"]
         # one more operation at the end so that a fault in the last generated op still has a probe
         sc["ops"].append({"op": "send", "inst": "A", "event": rnd.choice(prog["events"]), "probe": True})
         for g in sc["gv"].values():
@@ -227,7 +245,7 @@ class C04(Campaign):
             if not any(m_.get("async") or m_.get("awaitable") for m_ in base["programs"][0]["cbs"].values()):
                 classes = classes + ["SimStop", "SimStop"]
             for p in pos:
-                cls = rnd.choice(classes)
+                cls = rnd.choice(classes + (["SimType", "SimType"] if p["g"] in ("cond", "unless") else []))
                 variants.append(inject(base, p, cls))
             # double faults: two crash points in different operations
             allp = positions(base, bres)
